@@ -853,3 +853,38 @@ mod tests {
         assert_eq!(img, *decoded);
     }
 }
+
+#[cfg(image_webp_verif)]
+pub(crate) fn verif_build_huffman(frequencies: &[u32], limit: u8) -> (bool, Vec<u8>, Vec<u16>) {
+    let mut lengths = vec![0u8; frequencies.len()];
+    let mut codes = vec![0u16; frequencies.len()];
+    let ok = build_huffman_tree(frequencies, &mut lengths, &mut codes, limit);
+    (ok, lengths, codes)
+}
+
+#[cfg(image_webp_verif)]
+pub(crate) fn verif_encode_frame(
+    data: &[u8],
+    width: u32,
+    height: u32,
+    color: ColorType,
+    use_predictor_transform: bool,
+) -> Result<Vec<u8>, EncodingError> {
+    let mut out = Vec::new();
+    encode_frame(
+        &mut out,
+        data,
+        width,
+        height,
+        color,
+        EncoderParams {
+            use_predictor_transform,
+        },
+    )?;
+    Ok(out)
+}
+
+#[cfg(image_webp_verif)]
+pub(crate) fn verif_length_to_symbol(len: u16) -> (u16, u8) {
+    length_to_symbol(len)
+}
